@@ -76,10 +76,12 @@ def run(ctx):
     fam = "C04Quick" if ctx.tier == "quick" else "C04"
     res = tlc.run("MC_Scoring", "MC_Scoring_" + fam, tag=ctx.pid + "_" + fam, timeout_s=1800)
     ctx.add_tlc("MC_Scoring/" + fam, res, {"Family": fam})
+    res2 = tlc.run("MC_Scoring", "MC_Scoring_C04Clim", tag=ctx.pid + "_clim", timeout_s=900)
+    ctx.add_tlc("MC_Scoring/C04Clim", res2, {"Family": "C04Clim"})
     import random
     rng = random.Random(ctx.seed)
     jobs = []
-    for o in res.emitted:
+    for o in res.emitted + res2.emitted:
         if ctx.tier == "quick":
             jobs.append((o, "text", rng.choice(TEXT_TOKENS)))
             jobs.append((o, "netcdf", rng.choice(NC_ENC)))
